@@ -94,6 +94,7 @@ func c11RunLevel(e *env) {
 			var clis []cli
 			inflightDone := make(chan error, 1)
 			earlyDone := make(chan error, 1)
+			upgradeDone := make(chan error, 1)
 			for _, k := range c.Clients {
 				var w *walker
 				switch k {
@@ -113,6 +114,8 @@ func c11RunLevel(e *env) {
 					w = env.walk(c.Stacking, idxOf("rt"), false, bigPath, 0)
 				case "earlyreply":
 					w = env.walk(c.Stacking, idxOf("head"), false, "/x", 0) // up to, not including, the request head
+				case "upgrading":
+					w = env.walk(c.Stacking, idxOf("head"), false, "/x", 0)
 				}
 				if w.err != nil {
 					fail(k + " client could not reach its phase: " + w.err.Error())
@@ -161,6 +164,40 @@ func c11RunLevel(e *env) {
 							err = fmt.Errorf("status %d", r.Status)
 						}
 						earlyDone <- err
+					}()
+				}
+				if k == "upgrading" {
+					// the request reaches the origin, the shutdown begins, the origin switches protocols 900 ms later: the
+					// exchange "completes normally" - 101 as the origin sent it, then the tunnel, until the client ends it
+					w.conn.Write([]byte("GET http://origin.test" + slowPath + " HTTP/1.1\r\nHost: origin.test\r\nConnection: Upgrade\r\nUpgrade: echo\r\n\r\n"))
+					go func() {
+						w.conn.SetReadDeadline(time.Now().Add(8 * time.Second))
+						r, err := readWireResponseHeadOnly(w.br)
+						switch {
+						case err != nil:
+							upgradeDone <- fmt.Errorf("no answer to the upgrade request: %v", err)
+							return
+						case r.Status != 101:
+							upgradeDone <- fmt.Errorf("status %d", r.Status)
+							return
+						case hasToken(r.get("Connection"), "close"):
+							upgradeDone <- fmt.Errorf("the 101 says Connection: close")
+							return
+						}
+						for _, msg := range []string{"ping-1", "ping-2"} {
+							w.conn.Write([]byte(msg))
+							buf := make([]byte, len(msg))
+							if _, err := io.ReadFull(w.br, buf); err != nil || string(buf) != msg {
+								upgradeDone <- fmt.Errorf("the tunnel after the 101 does not relay: %q, %v", buf, err)
+								return
+							}
+						}
+						if cw, ok := w.conn.(interface{ CloseWrite() error }); ok {
+							cw.CloseWrite()
+						} else {
+							w.conn.Close()
+						}
+						upgradeDone <- nil
 					}()
 				}
 				if k == "inflight" {
@@ -218,6 +255,16 @@ func c11RunLevel(e *env) {
 					}
 					if took > 2*time.Second && !held {
 						fail(fmt.Sprintf("Run took %v to return: it waited for the rest of an upload whose answer had been delivered", took.Round(10*time.Millisecond)))
+					}
+				}
+				if cl.kind == "upgrading" {
+					select {
+					case err := <-upgradeDone:
+						if err != nil {
+							fail("the upgrade in flight when the shutdown began was not completed: " + err.Error())
+						}
+					case <-time.After(2 * time.Second):
+						fail("the upgrade in flight when the shutdown began was never completed")
 					}
 				}
 				if cl.kind == "inflight" {
